@@ -59,7 +59,7 @@ def run_search(case):
         return d
     try:
         bc._change_bucket, bc._add_bucket, bc._improve_one_ranking = change, add, improve
-        ds = _impl["Dataset"].from_raw_list(am.raw_dataset(case["D"]))
+        ds = _impl["Dataset"].from_raw_list(am.raw_dataset(case["D"]), name="study")     # every dataset of a process bears the same name (two files with one base name)
         ss = _impl["SS"](core.scheme_float(B, T, unit))
         if case["cfg"] == "BioCo":
             from corankco.algorithms.bioconsert.bioco import BioCo
